@@ -109,6 +109,33 @@ class Neither:
     pass
 
 
+class TupleMapping(tuple):
+    """a tuple subclass that is ALSO registered as a Mapping (row-like records)"""
+
+    def keys(self):
+        return range(len(self))
+
+    def items(self):
+        return list(enumerate(self))
+
+    def values(self):
+        return list(self)
+
+
+abc.Mapping.register(TupleMapping)
+
+
+class DictSeq(dict):
+    """a dict subclass that is ALSO registered as a Sequence"""
+
+
+abc.Sequence.register(DictSeq)
+
+
+class FloatSub(float):
+    pass
+
+
 def _twins():
     class Twin(abc.Mapping):
         def __getitem__(self, k):
@@ -152,6 +179,9 @@ def pool(with_numpy=True):
         "UserMapping": lambda: UserMapping(), "UserSequence": lambda: UserSequence(), "Both": lambda: Both(),
         "Neither": lambda: Neither(), "TwinMapping": lambda: TwinMapping(), "TwinSequence": lambda: TwinSequence(),
         "Liar": lambda: Liar(), "set": lambda: {1}, "complex": lambda: 1 + 2j,
+        "TupleMapping": lambda: TupleMapping((10, 20)), "DictSeq": lambda: DictSeq(a=1), "FloatSub": lambda: FloatSub(2.5),
+        "inf": lambda: float("inf"), "nan": lambda: float("nan"), "bigint": lambda: 2 ** 70, "emptydict": lambda: {},
+        "emptylist": lambda: [], "nested": lambda: {"a": [1, {"b": (2, 3)}]},
     }
     if with_numpy:
         try:
